@@ -126,6 +126,7 @@ impl IoPlan {
                                 .set("kind", J::str(k))
                                 .set("error", J::str(kn))
                                 .set("flavour", J::str(if matches!(f.kind, FaultKind::Hard(_)) { FLAVOURS[f.arg as usize % 4] } else { "" }))
+                                .set("sticky", J::Bool(!matches!(f.kind, FaultKind::Interrupted) && f.arg & STICKY != 0))
                                 .set("at", J::u(f.at))
                                 .set("arg", J::u(f.arg as u64))
                         })
@@ -212,10 +213,17 @@ pub struct IoTrace {
     pub call_after_hard_error: bool,
 }
 
+/// `Fault::arg` bit: the condition persists (device stays broken / stays full) instead of one-shot
+pub const STICKY: u32 = 0x100;
+
 struct SideState {
     faults: Vec<(usize, Fault)>, // sorted by at, pending
     interrupted_left: u32,
     hard_fired: bool,
+    /// once set, every later call on this side fails with this (kind, flavour)
+    sticky_hard: Option<(u8, u32)>,
+    /// once set, every later write is answered with Ok(0)
+    sticky_zero: bool,
     rng: Rng,
     frag: Frag,
     boundaries: std::sync::Arc<Vec<u64>>,
@@ -235,6 +243,8 @@ impl SideState {
             faults,
             interrupted_left: 0,
             hard_fired: false,
+            sticky_hard: None,
+            sticky_zero: false,
             rng: Rng::new(plan.tail_seed ^ if side == Side::Src { 0x5151 } else { 0xd5d5 }),
             frag: if side == Side::Src { plan.src_frag } else { plan.dst_frag },
             boundaries,
@@ -330,6 +340,11 @@ impl<'a> Read for SimReader<'a> {
         if buf.is_empty() {
             return Ok(0);
         }
+        if let Some((k, fl)) = self.st.sticky_hard {
+            sh.trace.hard_returned += 1;
+            sh.trace.digest.u64(0xE5_00 | k as u64);
+            return Err(make_error(k, fl, "source"));
+        }
         if self.st.interrupted_left > 0 {
             self.st.interrupted_left -= 1;
             sh.trace.interrupted_returned += 1;
@@ -352,6 +367,9 @@ impl<'a> Read for SimReader<'a> {
                     self.st.hard_fired = true;
                     sh.trace.hard_returned += 1;
                     sh.trace.digest.u64(0xE2_00 | k as u64);
+                    if f.arg & STICKY != 0 {
+                        self.st.sticky_hard = Some((k, f.arg));
+                    }
                     return Err(make_error(k, f.arg, "source"));
                 }
                 FaultKind::Interrupted => {
@@ -417,6 +435,17 @@ impl Write for SimWriter {
         if buf.is_empty() {
             return Ok(0);
         }
+        if let Some((k, fl)) = self.st.sticky_hard {
+            sh.trace.hard_returned += 1;
+            sh.trace.digest.u64(0xE6_00 | k as u64);
+            return Err(make_error(k, fl, "destination"));
+        }
+        if self.st.sticky_zero {
+            // the device stays full: Ok(0) for ever (a caller that keeps retrying runs into the step budget)
+            sh.trace.zero_write_returned += 1;
+            sh.trace.digest.u64(0xE7);
+            return Ok(0);
+        }
         if self.st.interrupted_left > 0 {
             self.st.interrupted_left -= 1;
             sh.trace.interrupted_returned += 1;
@@ -439,6 +468,9 @@ impl Write for SimWriter {
                     self.st.hard_fired = true;
                     sh.trace.hard_returned += 1;
                     sh.trace.digest.u64(0xE3_00 | k as u64);
+                    if f.arg & STICKY != 0 {
+                        self.st.sticky_hard = Some((k, f.arg));
+                    }
                     return Err(make_error(k, f.arg, "destination"));
                 }
                 FaultKind::Interrupted => {
@@ -453,6 +485,9 @@ impl Write for SimWriter {
                     sh.trace.zero_write_returned += 1;
                     sh.last_transient_call = sh.total_calls;
                     sh.trace.digest.u64(0xE4);
+                    if f.arg & STICKY != 0 {
+                        self.st.sticky_zero = true;
+                    }
                     return Ok(0);
                 }
             }
